@@ -407,3 +407,56 @@ def selftest():
     for what, ok in report:
         lib.log("selftest beacon: %-70s %s" % (what, "ok" if ok else "FAILED"))
     return all(ok for _, ok in report)
+
+
+# ------------------------------------------------------------------------------------------------
+# BeaconMC: sanity / vacuity guard of the reference specification itself (exhaustive, small bounds)
+
+MC_INVARIANTS = ["BalancesNonNegative", "CheckpointOrder", "SlashedWithdrawableAfterExit", "ExitChurnRespected",
+                 "EffectiveBalanceWellFormed", "WithdrawalCursorInRange", "RegistryShapes", "ForkMatchesSchedule"]
+MC_RUNS = {
+    # (forks operator, MaxSlot, reachability goals expected to be violated)
+    "quick": [("ForksSpread", 6, ["NeverSlashes", "NeverExits", "NeverDeposits", "NeverAltair", "NeverBellatrix",
+                                   "NeverCapella", "NeverJustifies"]),
+              ("ForksNever", 6, ["NeverSlashes", "NeverExits", "NeverDeposits", "NeverJustifies"])],
+    "thorough": [("ForksSpread", 8, ["NeverSlashes", "NeverExits", "NeverDeposits", "NeverAltair", "NeverBellatrix",
+                                      "NeverCapella", "NeverDeneb", "NeverJustifies", "NeverFinalizes", "NeverWithdraws"]),
+                 ("ForksEarly", 8, ["NeverDeneb", "NeverFinalizes", "NeverWithdraws", "NeverActivatesDeposit"]),
+                 ("ForksNever", 8, ["NeverSlashes", "NeverExits", "NeverFinalizes"]),
+                 ("ForksAltairOnly", 8, ["NeverAltair", "NeverFinalizes"])],
+}
+
+
+def _mc_cfg(forks, max_slot, invariants):
+    return ("CONSTANT P <- MCP\nCONSTANT MaxSlot = %d\nCONSTANT MCForks <- %s\nINIT Init\nNEXT Next\nCHECK_DEADLOCK FALSE\n"
+            % (max_slot, forks)) + "".join("INVARIANT %s\n" % i for i in invariants)
+
+
+def mc_sanity(tier, workers=4):
+    """Exhaustive check of BeaconMC: every honest block is accepted by the specification and the DESIGN 5.6
+    invariants hold in every reachable state; then, as a vacuity guard, every reachability goal is indeed
+    reached.  Any failure is a specification problem: InfraError, never a verdict about zrnt."""
+    jobs = []
+    for forks, ms, goals in MC_RUNS[tier]:
+        jobs.append((forks, ms, "inv", MC_INVARIANTS))
+        jobs.append((forks, ms, "reach", goals))
+
+    def one(job):
+        forks, ms, mode, invs = job
+        wd = lib.fresh_spec_copy({"mc.cfg": _mc_cfg(forks, ms, invs)})
+        res = lib.tlc("BeaconMC", cfg="mc.cfg", workdir=wd, workers=workers, timeout=2400, java_opts="-Xss512m",
+                      extra_args=(["-continue"] if mode == "reach" else []))
+        shutil.rmtree(wd, ignore_errors=True)
+        if mode == "inv":
+            lib.tlc_must_pass(res, "BeaconMC %s MaxSlot=%d invariants" % (forks, ms))
+        else:
+            missing = [g for g in invs if g not in res.invariant_violated]
+            hard = [e for e in res.errors if "Invariant" not in e and "is violated" not in e]
+            if missing or "Assert" in res.out or "honest block rejected" in res.out:
+                raise lib.InfraError("BeaconMC %s MaxSlot=%d: goals never reached %s (vacuous model) or assertion failed:\n%s"
+                                     % (forks, ms, missing, res.out[-3000:]))
+            del hard
+        return {"forks": forks, "max_slot": ms, "mode": mode, "distinct": res.distinct, "generated": res.generated,
+                "wall": round(res.wall, 1)}
+
+    return lib.parallel_map(one, jobs, workers=max(1, min(len(jobs), lib.NCPU // workers)))
